@@ -63,6 +63,19 @@ func GenCase(r *rand.Rand, tier string) Case {
 			c.Rules = append(c.Rules, Rule{State: r.Intn(n), Hook: hooks[r.Intn(4)], Op: genOp(r, n, false, 0)})
 		}
 	}
+	if r.Intn(8) == 0 {
+		// a check is pending in the queue (issued from a handler) when the same states are added for
+		// real right behind it: nothing removes or vetoes anything, so every added state ends active
+		c = Case{N: 3 + r.Intn(2), Seed: c.Seed, Tag: "check-then-add"}
+		x := 1 + r.Intn(c.N-1)
+		c.Threads = [][]Op{{{Kind: "add", States: []int{0}}}}
+		if r.Intn(2) == 0 {
+			c.Threads = append(c.Threads, []Op{{Kind: "add", States: []int{(x % (c.N - 1)) + 1}}})
+		}
+		c.Rules = []Rule{{State: 0, Hook: "state", Op: Op{Kind: "canadd", States: []int{x}}},
+			{State: 0, Hook: "state", Op: Op{Kind: "add", States: []int{x}}}}
+		return c
+	}
 	switch r.Intn(4) {
 	case 0:
 		c.Tag = "random"
